@@ -18,6 +18,8 @@ def _q(r):
 
 
 def _close(a, b):
+    if not (math.isfinite(a) and math.isfinite(b)):
+        return a == b
     return abs(a - b) <= TOL * max(1.0, abs(a), abs(b))
 
 
@@ -70,6 +72,14 @@ def run_cell(item):
     for p, ev in enumerate(e["val"]):
         if not ev["irr"] and not _close(float(_q(ev["v"])), float(ov[p])):
             return (f"value[{p}]", float(_q(ev["v"])), float(ov[p]))
+        if ev["irr"] and "lf" in ev:
+            # a finite sum of rational multiples of logarithms of rationals, evaluated in extended precision
+            want = float(sum(np.longdouble(float(_q(t[0]))) * np.log(np.longdouble(_q(t[1]).numerator) / np.longdouble(_q(t[1]).denominator))
+                             for t in ev["lf"]))
+            if not _close(want, float(ov[p])):
+                return (f"value[{p}]", want, float(ov[p]))
+        elif ev["irr"] and not np.isfinite(ov[p]):
+            return (f"value[{p}]", "finite", float(ov[p]))
     seed = np.array([float(_q(g)) for g in e["seed"]]).reshape(out.shape)
     out.backward(seed)
     grads = [x.grad.ravel()] + [t.grad.ravel() for t in extra]
